@@ -14,6 +14,7 @@ import (
 	"pgregory.net/rapid"
 
 	"github.com/panjf2000/gnet/v2/internal/vsched"
+	"github.com/panjf2000/gnet/v2/internal/vsched/vunix"
 	errorx "github.com/panjf2000/gnet/v2/pkg/errors"
 	"github.com/panjf2000/gnet/v2/pkg/netpoll"
 	"github.com/panjf2000/gnet/v2/pkg/queue"
@@ -37,6 +38,9 @@ type wakeCase struct {
 	// again until every other thread is blocked or finished (or sleepFor steps passed):
 	// a goroutine pre-empted for a long time in the middle of Trigger.
 	sleeper, sleepAfter, sleepFor int
+	// efdEagainAt > 0: the k-th write to the eventfd (counting the preload's) reports EAGAIN, as if
+	// the counter stood at its ceiling; the code reads the eventfd and writes again
+	efdEagainAt int
 }
 
 func (c wakeCase) String() string {
@@ -58,8 +62,11 @@ func (c wakeCase) String() string {
 	}
 	sort.Ints(pts)
 	sl := ""
+	if c.efdEagainAt > 0 {
+		sl = fmt.Sprintf(", eventfd write #%d reports EAGAIN", c.efdEagainAt)
+	}
 	if c.sleeper >= 0 {
-		sl = fmt.Sprintf(", producer %d sleeps after %d steps (at most %d steps)", c.sleeper, c.sleepAfter, c.sleepFor)
+		sl += fmt.Sprintf(", producer %d sleeps after %d steps (at most %d steps)", c.sleeper, c.sleepAfter, c.sleepFor)
 	}
 	return fmt.Sprintf("producers %s preload %d urgent + %d low, schedule %s prio %v change %v%s", strings.Join(ps, "|"), c.preUrgent, c.preLow, c.sched, c.prio, pts, sl)
 }
@@ -123,6 +130,8 @@ func runWakeWith(c wakeCase, choose3 func(cands []int, last int, step int) int, 
 		return "VERIF-INFRA OpenPoller: " + err.Error()
 	}
 	defer p.Close()
+	vunix.FailWriteAt(c.efdEagainAt)
+	defer vunix.FailWriteAt(0)
 	s := vsched.New()
 	defer s.Close()
 	s.FairAfter = 64 // the loop legitimately spins while a producer sits between linking its node and publishing the length
@@ -227,6 +236,9 @@ func runWakeWith(c wakeCase, choose3 func(cands []int, last int, step int) int, 
 	if c.preUrgent >= 1024 {
 		st.Label("urgent_threshold_crossed")
 	}
+	if c.efdEagainAt > 0 && vunix.WriteFaultDelivered() {
+		st.Label("eventfd_write_reported_eagain")
+	}
 	if c.sleeper >= 0 {
 		st.Label("producer_preempted_until_loop_parked")
 		if c.preUrgent >= 1024 {
@@ -313,6 +325,9 @@ func drawWakeCase(t *rapid.T) wakeCase {
 		c.preUrgent = rapid.IntRange(1, 40).Draw(t, "preUrgent")
 	case 4, 5:
 		c.preLow = rapid.IntRange(1, 40).Draw(t, "preLow")
+	}
+	if rapid.IntRange(0, 7).Draw(t, "efdFault") == 0 {
+		c.efdEagainAt = rapid.IntRange(1, 6).Draw(t, "efdEagainAt")
 	}
 	if rapid.Bool().Draw(t, "pct") {
 		c.sched = "pct"
